@@ -690,7 +690,8 @@ pub open spec fn up(h: Heap, n: int, a: int) -> bool
 pub open spec fn head_of_up(h: Heap, n: int, m: int) -> bool {
     exists|a: int| alive(h, a) && a != n && #[trigger] up(h, n, a) && h.st[a].head_sn == Some(m)
 }
-// ASSUMED (T8, unsafe code): what the raw-pointer walk of set_no_backtracking() does, started on node n -
+// What the raw-pointer walk of set_no_backtracking() does, started on node n (PROVED of its verbatim body in unit cutwalk, rule R17;
+// assumed here of the call through the RefMut, R15e) -
 // the flag is set on n and on every node up the parent_node links, and on the head node of each of those ancestors (not of n itself); nothing else changes.
 // (`on_chain` is the ghost record of "was on the walk".)  Checked on the real function by a bounded Kani harness.
 pub open spec fn walked(h: Heap, h2: Heap, n: int) -> bool {
@@ -701,10 +702,39 @@ pub open spec fn walked(h: Heap, h2: Heap, n: int) -> bool {
             ..h.st[m]
         }
 }
+// the parent chain of n is well formed: its nodes exist, each link goes one level up, a head link points at an existing node
+pub open spec fn chain_ok(h: Heap, n: int) -> bool {
+    forall|a: int| #[trigger] up(h, n, a) ==> alive(h, a)
+        && (h.st[a].parent matches Some(p) ==> alive(h, p) && h.st[p].depth < h.st[a].depth)
+        && (h.st[a].head_sn matches Some(m) ==> alive(h, m))
+}
+// every up-node of a live node is alive
+pub proof fn lemma_up_alive(h: Heap, n: int, a: int)
+    requires alive(h, n), up(h, n, a),
+    ensures alive(h, a),
+    decreases h.st[n].depth,
+{
+    if a != n { match h.st[n].parent { Some(p) => { lemma_up_alive(h, p, a); }, None => {} } }
+}
+// the heap invariant gives it
+pub proof fn lemma_chain_ok(h: Heap, n: int)
+    requires inv(h), alive(h, n),
+    ensures chain_ok(h, n),
+{
+    reveal(wf_node);
+    assert forall|a: int| #[trigger] up(h, n, a) implies alive(h, a)
+            && (h.st[a].parent matches Some(p) ==> alive(h, p) && h.st[p].depth < h.st[a].depth)
+            && (h.st[a].head_sn matches Some(m) ==> alive(h, m)) by {
+        lemma_up_alive(h, n, a);
+        assert(wf_node(h, a));
+    }
+}
 // R15e  `sn_ref.set_no_backtracking()` (a method of the node, reached through the RefMut)
 #[verifier::external_body]
 pub fn nd_call_set_no_backtracking<'a>(n: &Rc<RefCell<SolutionNode<'a>>>, Tracked(h): Tracked<&mut Heap>)
     requires held(*old(h), nid(*n)),
+             // (the precondition under which `walked` is PROVED of the method's body, unit cutwalk)
+             chain_ok(*old(h), nid(*n)),
     ensures final(h).ids == old(h).ids, walked(*old(h), *final(h), nid(*n)),
 { unimplemented!() }
 
